@@ -218,7 +218,7 @@ func (s *Sched) enabled(t int) bool {
 //
 //go:norace
 func (s *Sched) pick(me int) int {
-	var en [64]int
+	var en [128]int
 	ne := 0
 	blocked := false
 	for t := 0; t < s.n; t++ {
